@@ -162,6 +162,12 @@ pub fn pipeline_inputs() -> Vec<PInput> {
     gs.swap(3, 8);
     inputs.push(h("H 3D reflective unit n=12, generators 3 and 8 swapped", 3, false, v(0., 0., 0.), unit, gs.clone()));
     inputs.push(h("H 3D periodic unit n=12, generators 3 and 8 swapped", 3, true, v(0., 0., 0.), unit, gs));
+    // masked builds of the same positions before and after two generators swap slots (the mask stays with the slots)
+    let hm: Vec<bool> = (0..12).map(|i| i % 3 != 1).collect();
+    inputs.push(PInput { name: "H 3D reflective unit n=12, mask 101101...", dim: 3, periodic: false, anchor: v(0., 0., 0.), width: unit, gens: g.clone(), mask: Some(hm.clone()), explore: false });
+    let mut gs2 = g.clone();
+    gs2.swap(3, 8);
+    inputs.push(PInput { name: "H 3D reflective unit n=12, generators 3 and 8 swapped, mask 101101...", dim: 3, periodic: false, anchor: v(0., 0., 0.), width: unit, gens: gs2, mask: Some(hm), explore: false });
     let mut gm = g.clone();
     gm[5] = v(0.31, 0.62, 0.47);
     inputs.push(h("H 3D reflective unit n=12, generator 5 moved", 3, false, v(0., 0., 0.), unit, gm));
